@@ -129,7 +129,7 @@ func main() {
 		}
 		return
 	}
-	hk.Main("C09", runC09, nil)
+	hk.Main("C09", runC09, map[string]hk.Gosyncer{"C09Sync": syncC09})
 }
 
 func runC09(r *hk.Run) {
